@@ -339,6 +339,34 @@ VARIANTS = [
     {"name": "P10 absent-section early-out as a nested guard", "file": TEMPLATES, "expect": "silent",
      "old": "        if self._optional and not vals:\n            return\n\n        # NUL needed",
      "new": "        if self._optional:\n            if not vals:\n                return\n\n        # NUL needed"},
+    # ------------------------------------------------------------------ round 7
+    {"name": "P11 an empty block list is announced by a comment line", "file": FMT, "expect": "silent",
+     "old": "            for block_num, block in enumerate(block_list):\n",
+     "new": "            if not block_list:\n                string += f\"# [{block_name}] has no blocks\\n\"\n"
+            "            for block_num, block in enumerate(block_list):\n"},
+    {"name": "P11 text collected in a parts list", "file": FMT, "expect": "silent",
+     "edits": [{"file": FMT, "old": "                string += f\"[{block_name}]{block_suffix}\\n\"\n",
+                "new": "                pieces = [f\"[{block_name}]{block_suffix}\\n\"]\n                string += pieces[0]\n"}]},
+    {"name": "R12 binary quaternion packer renormalises hand-written components", "file": "hippolyzer/lib/base/message/data_packer.py",
+     "expect": "C11.R12",
+     "old": "            return struct_obj.pack(*x[:needed_elems])\n",
+     "new": "            norm_ = sum(c * c for c in x) ** 0.5 or 1.0\n"
+            "            return struct_obj.pack(*[c / norm_ for c in x[:needed_elems]])\n"},
+    {"name": "P12 binary quaternion packer only warns about non-unit input", "file": "hippolyzer/lib/base/message/data_packer.py",
+     "expect": "silent",
+     "old": "            return struct_obj.pack(*x[:needed_elems])\n",
+     "new": "            if abs(sum(c * c for c in x) - 1.0) > 0.01:\n                pass\n"
+            "            return struct_obj.pack(*x[:needed_elems])\n"},
+    {"name": "R13 C strings decoded with errors='replace'", "expect": "C11.R13",
+     "edits": [{"file": SER, "old": ".rstrip(b\"\\x00\").decode(\"utf8\")", "new": ".rstrip(b\"\\x00\").decode(\"utf8\", \"replace\")", "all": True}]},
+    {"name": "P13 C strings decoded with an explicit strict handler", "expect": "silent",
+     "edits": [{"file": SER, "old": ".rstrip(b\"\\x00\").decode(\"utf8\")", "new": ".rstrip(b\"\\x00\").decode(\"utf8\", errors=\"strict\")", "all": True}]},
+    {"name": "R4 long literal pieces rendered by the pretty printer", "file": HELPERS, "expect": "C11.R4",
+     "old": "        reprs = \"\\n\".join(repr(x) for x in split)\n",
+     "new": "        reprs = \"\\n\".join(self._base_pformat(piece) for piece in split)\n"},
+    {"name": "P4 literal pieces rendered by repr in a list comprehension", "file": HELPERS, "expect": "silent",
+     "old": "        reprs = \"\\n\".join(repr(x) for x in split)\n",
+     "new": "        reprs = \"\\n\".join([repr(piece) for piece in split])\n"},
     # ------------------------------------------------------------------ documented limits
     {"name": "X wrap width changed (line-wrapping details are value level)", "file": FMT, "expect": "miss",
      "old": "HippoPrettyPrinter(width=100)", "new": "HippoPrettyPrinter(width=40)"},
